@@ -136,45 +136,78 @@ def r1(ctx):
                 va |= {origin_summary(x) for x in trace(pm, o.data[1][1])}
         pa = {origin_summary(o) for o in trace(pm, t["a"][1])}
         ctx.check(bool(va) and va == pa, "C03.R1", PM, "validated-entry-is-stored-entry", "validate_cb entry %s / put entry %s" % (sorted(va), sorted(pa)), t["sp"])
-    # (e) the production validate closure ensures both validations
+    # (e) the production validate closure, evaluated on validate_empty x validate_entry outcomes (K6'): true only if both
+    # validations succeeded, on the entry the callback received, for this replica's namespace, with a Sync origin
     sb, sbi, st, cl = production_closures(f)
     ctx.touch(sb)
     vcl = f.body(cl[0])
     ctx.touch(vcl)
-    ok_ve, why_ve = ens_ve.ensures_body(vcl)
-    ctx.check(ok_ve, "C03.R1", vcl.path, "validate-closure.ensures-validate_entry", why_ve, vcl.sp)
-    ok_em, why_em = ens_em.ensures_body(vcl)
-    ctx.check(ok_em, "C03.R1", vcl.path, "validate-closure.ensures-validate_empty",
-              why_em + ("" if ok_em else "; the reconciliation path stores entries whose emptiness was never validated (hash==EMPTY xor len==0), which the direct path rejects"), vcl.sp)
-    # the closure validates the entry it was given, for this replica's namespace, with a non-Local origin
-    from .common import ip_trace
-    vscope = f.scope(vcl.path, prefix="sync::")
-    ve_calls = [(x, bi, t) for x in vscope for bi, t in x.calls() if callee_matches(t, VE)]
-    if len(ve_calls) == 1:
-        vx, _, t = ve_calls[0]
-        ctx.touch(vx)
+    from . import feval as E, coll
 
-        def tr(op):
-            # provenance in the validate closure's own terms (through the parameters of a helper it calls)
-            return [o for bb, o in ip_trace(f, vx, op, [vcl])]
-        ent = tr(t["a"][3])
-        ctx.check(all(o.kind == "arg" and o.data[0] == 3 for o in ent) and ent, "C03.R1", vcl.path, "validates-the-received-entry",
-                  "entry argument of validate_entry is the callback's entry parameter: %s" % [origin_summary(o) for o in ent], t["sp"])
-        org = tr(t["a"][4])
-        ctx.check(all(o.kind == "agg" and o.data[0][2] == "Sync" for o in org) and org, "C03.R1", vcl.path, "origin-is-Sync",
-                  "origin passed for reconciliation entries: %s (Local would skip signature verification)" % [origin_summary(o) for o in org], t["sp"])
-        ns = tr(t["a"][2])
-        ctx.check(all(o.kind == "upvar" and o.data == "my_namespace" for o in ns) and ns, "C03.R1", vcl.path, "namespace-is-captured-my_namespace",
-                  "%s" % [origin_summary(o) for o in ns], t["sp"])
-        # my_namespace in the parent = self.id()
-        nsl = sb.local_by_name("my_namespace")
-        okns = False
+    def rename(nm, ty):
+        if "SignedEntry" in ty:
+            return "entry-param"
+        if "ContentStatus" in ty:
+            return "content-status-param"
+        if "NamespaceId" in ty:
+            return "namespace-capture"
+        if ty.strip("&") in ("u64",):
+            return "now-capture"
+        if "[u8; 32]" in ty or "PeerIdBytes" in ty:
+            return "from-capture"
+        return nm
+    rows = {}
+    seen = {"entry": set(), "empty": set(), "origin": set(), "ns": set()}
+    for em in ("Ok", "Err"):
+        for ve in ("Ok", "Err"):
+            called = []
+            C = coll.Collections(f)
+
+            def oracle(kind, name, payload, site, em=em, ve=ve, called=called):
+                if kind != "call":
+                    return None
+                t, args, it = payload
+                if callee_matches(t, VEMPTY):
+                    called.append("validate_empty")
+                    seen["empty"].add(it.tokname(args[0]).strip("&*"))
+                    return E.Ok(E.UNIT) if em == "Ok" else E.Err(E.Tok("InvalidEmptyEntry"))
+                if callee_matches(t, VE):
+                    called.append("validate_entry")
+                    seen["ns"].add(it.tokname(args[2]).strip("&*"))
+                    seen["entry"].add(it.tokname(args[3]).strip("&*"))
+                    seen["origin"].add(E.describe(it.resolve(args[4]), f))
+                    return E.Ok(E.UNIT) if ve == "Ok" else E.Err(E.Tok("failure"))
+                return C.handle(kind, name, payload, site)
+            heap = {}
+            try:
+                args = E.default_args(f, vcl.path, heap, rename)
+                ret, itp = E.run_it(f, vcl.path, args, heap, oracle)
+                rows[(em, ve)] = (E.describe(ret, f), tuple(called))
+            except E.Unsupported as e:
+                rows[(em, ve)] = ("UNSUPPORTED-FORM: %s" % e, tuple(called))
+    accepted = {k for k, v in rows.items() if v[0] == "1"}
+    rejected = {k for k, v in rows.items() if v[0] == "0"}
+    total = len(accepted) + len(rejected) == 4
+    ok_ve = total and all(k[1] == "Ok" and "validate_entry" in rows[k][1] for k in accepted) and ("Ok", "Ok") in accepted
+    ctx.check(ok_ve, "C03.R1", vcl.path, "validate-closure.ensures-validate_entry",
+              "(validate_empty, validate_entry) -> (accepts, validations run): %s; spec: accepts exactly when both succeeded" % rows, vcl.sp)
+    ok_em = total and all(k[0] == "Ok" and "validate_empty" in rows[k][1] for k in accepted) and ("Ok", "Ok") in accepted
+    ctx.check(ok_em, "C03.R1", vcl.path, "validate-closure.ensures-validate_empty",
+              "(validate_empty, validate_entry) -> (accepts, validations run): %s%s" % (rows, "" if ok_em else "; the reconciliation path stores entries whose emptiness was never validated (hash==EMPTY xor len==0), which the direct path rejects"), vcl.sp)
+    ctx.check(seen["entry"] == {"entry-param"} and seen["empty"] == {"entry-param"}, "C03.R1", vcl.path, "validates-the-received-entry",
+              "validate_entry is given %s, validate_empty is called on %s; spec: the entry the callback received" % (sorted(seen["entry"]), sorted(seen["empty"])), vcl.sp)
+    ctx.check(bool(seen["origin"]) and all(o.startswith("Sync") and "from-capture" in o and "content-status-param" in o for o in seen["origin"]), "C03.R1", vcl.path, "origin-is-Sync",
+              "origin passed for reconciliation entries: %s (Local would skip signature verification); spec: Sync { the session's peer, the content status the peer reported for this entry }" % sorted(seen["origin"]), vcl.sp)
+    ctx.check(seen["ns"] == {"namespace-capture"}, "C03.R1", vcl.path, "namespace-is-captured-my_namespace", "%s" % sorted(seen["ns"]), vcl.sp)
+    # my_namespace in the parent = self.id()
+    ns_caps = [nm for nm, pl in (vcl.upvars or {}).items() for pr in pl["p"] if pr[0] == "field" and len(pr) > 3 and "NamespaceId" in pr[3]]
+    okns = False
+    for nm in ns_caps:
+        nsl = sb.local_by_name(nm)
         if nsl:
             o2 = trace(sb, {"l": nsl[0], "p": []}, through_calls=False)
             okns = all(o.kind == "call" and o.data["f"].get("name") == "id" for o in o2) and bool(o2)
-        ctx.check(okns, "C03.R1", SPM, "my_namespace-is-replica-id", "my_namespace = self.id()", sb.sp)
-    else:
-        ctx.bad("C03.R1", vcl.path, "validate-closure.calls-validate_entry-once", "found %d calls" % len(ve_calls), vcl.sp)
+    ctx.check(okns and len(ns_caps) == 1, "C03.R1", SPM, "my_namespace-is-replica-id", "the namespace captured by the validate closure (%s) = self.id()" % ns_caps, sb.sp)
     ctx.floor("C03.R1", 12)
 
 
@@ -560,14 +593,18 @@ def local_authoring(ctx, rule):
     dele = f.body("sync::Replica::<'a, I>::delete_prefix")
     ctx.touch(ins, dele)
 
-    def evaluate(path, args, hash_empty):
+    def evaluate(path, args, hash_empty, stored=()):
         log = []
+        from . import coll
+        C = coll.Collections(f)
 
         def oracle(kind, name, payload, site):
             if kind == "await":
                 return E.Ok(E.Tok("removed")) if str(name) == "fut:insert_entry" else None
             if kind in ("eq", "cmp"):
                 a, b = str(name), str(payload)
+                if "stored" in a + b:
+                    return True if kind == "eq" else 0      # what is stored already has the same content
                 if "arg.hash" in (a, b):
                     return bool(hash_empty) if kind == "eq" else (0 if hash_empty else 1)
                 return None
@@ -584,6 +621,14 @@ def local_authoring(ctx, rule):
                 return E.Ok(E.Tok("secret"))
             if name == "sign":
                 return E.Tok("signed(%s)" % names[0])
+            if name in ("get_many", "get_exact", "get_range", "prefixes_of", "get"):
+                # whatever the function asks the store about what is already there
+                if name == "get_many" or name in ("get_range", "prefixes_of"):
+                    return E.Ok(coll.seq("iter", [E.Ok(E.Tok(x)) for x in stored]))
+                return E.Ok(E.Some(E.Tok(stored[0])) if stored else E.NONE)
+            r = C.handle(kind, name, payload, site)
+            if r is not None:
+                return r
             return None
         try:
             ret, hp, ev = E.run_async(f, path, args, {"self": E.Tok("replica")}, oracle)
@@ -601,14 +646,27 @@ def local_authoring(ctx, rule):
             ctx.check(ok, rule, ins.path, "insert[hash=%s,len=%s]" % ("empty" if he else "content", "0" if lz else "7"),
                       "returns %s; entries handed to insert_entry: %s; spec: %s" % (got, [(x[0][:90], x[1]) for x in log],
                       "signed and stored with origin Local, carrying the given hash and length" if proper else "refused, nothing signed or stored (peers reject such a record)"), ins.sp)
-    got, log = evaluate(dele.path, [E.href("self"), E.Tok("arg.prefix"), E.Tok("arg.author")], 0)
-    ok = got == "Ok(removed)" and len(log) == 1 and log[0][1] == "Local" and re.search(r"Record\(0,[^,]*EMPTY", log[0][0]) is not None
-    ctx.check(ok, rule, dele.path, "delete_prefix-signs-a-proper-deletion-marker", "returns %s; entries handed to insert_entry: %s; spec: one entry with the empty hash and length 0, origin Local" % (got, [(x[0][:160], x[1]) for x in log]), dele.sp)
+    # a write of content the key already holds is a new entry all the same (a later timestamp): it must be offered to the replica
+    got, log = evaluate(ins.path, [E.href("self"), E.Tok("arg.key"), E.Tok("arg.author"), E.Tok("arg.hash"), E.Int(7)], 0, ("stored-entry",))
+    ok = got == "Ok(removed)" and len(log) == 1 and log[0][1] == "Local" and "Record(7,arg.hash," in log[0][0]
+    ctx.check(ok, rule, ins.path, "insert[hash=content,len=7,key-holds-the-same-content]", "returns %s; entries handed to insert_entry: %s; spec: signed and stored like any other write" % (got, [(x[0][:90], x[1]) for x in log]), ins.sp)
+    for label, stored in (("nothing-stored-below-the-prefix", ()), ("entries-stored-below-the-prefix", ("stored-entry",))):
+        # a deletion is an entry like any other: it must reach the replica whatever the replica holds right now - an older entry
+        # below the prefix may still arrive from a peer, and the marker is what supersedes it (order independence)
+        got, log = evaluate(dele.path, [E.href("self"), E.Tok("arg.prefix"), E.Tok("arg.author")], 0, stored)
+        ok = got == "Ok(removed)" and len(log) == 1 and log[0][1] == "Local" and re.search(r"Record\(0,[^,]*EMPTY", log[0][0]) is not None
+        ctx.check(ok, rule, dele.path, "delete_prefix-signs-a-proper-deletion-marker[%s]" % label, "returns %s; entries handed to insert_entry: %s; spec: one entry with the empty hash and length 0, origin Local, whatever the store holds" % (got, [(x[0][:160], x[1]) for x in log]), dele.sp)
 
 
 def r9(ctx):
     local_authoring(ctx, "C03.R9")
-    ctx.floor("C03.R9", 5)
+    ctx.floor("C03.R9", 7)
+
+
+def r10(ctx):
+    from . import pubkeys
+    pubkeys.check(ctx, "C03.R10")
+    ctx.floor("C03.R10", 11)
 
 
 def run(ctx):
@@ -621,3 +679,4 @@ def run(ctx):
     ctx.run_rule("C03.R7", r7)
     ctx.run_rule("C03.R8", r8)
     ctx.run_rule("C03.R9", r9)
+    ctx.run_rule("C03.R10", r10)
